@@ -458,4 +458,23 @@ example :
     premisesB (mk []) outer = true ∧ premisesB (mk ["tp".toList]) outer = true ∧ premisesB (mk ["len".toList]) outer = false := by
   decide +kernel
 
+open DW.GenLoad in
+/-- **C15 (default-engine load generator, quoting).**  The two places where `load_func_for_dataclass` writes user text into the
+source — the field name of a path line and the name of the CatchAll field — go through `repr`, which reads back
+(`C15_repr_roundtrip`); path parts are literals inside a tuple display. -/
+theorem C15_genload_text_is_literal (printable : Char → Bool) (l : PathLine) (f : S) (g : LIn) (hc : g.catchAll = some (f, false)) :
+    (∃ parts, pathStmt printable l = Stmt.line parts ∧
+      (parts.map (·.text)).head? = some ("field=".toList ++ pyRepr printable l.field)) ∧
+    (∃ pre post q, tailStmts printable g = pre ++ Stmt.line [q] :: post ∧
+      q.text = "init_kwargs[".toList ++ pyRepr printable f ++ "] = catch_all".toList) ∧
+    pyUnquote (pyRepr printable l.field) = some l.field := by
+  refine ⟨⟨_, rfl, rfl⟩, ?_, C15_repr_roundtrip printable l.field⟩
+  refine ⟨if g.loopOverO then [loopBlock g] else [], ?post,
+    Part.mk ("init_kwargs[".toList ++ pyRepr printable f ++ "] = catch_all".toList) ["catch_all".toList, "init_kwargs".toList] [] false,
+    ?h, rfl⟩
+  case h =>
+    unfold tailStmts
+    simp only [hc, List.append_assoc, List.singleton_append]
+    rfl
+
 end DW.Props.C15
